@@ -26,6 +26,13 @@ def assigned_names(nodes) -> set[str]:
                 tgt(e)
         elif isinstance(t, ast.Starred):
             tgt(t.value)
+        elif isinstance(t, ast.Subscript):
+            # x[k] = v / del x[k] on a local container value changes x
+            b = t.value
+            while isinstance(b, ast.Subscript):
+                b = b.value
+            if isinstance(b, ast.Name):
+                out.add(b.id)
 
     for root in nodes:
         for n in ast.walk(root):
@@ -44,6 +51,9 @@ def assigned_names(nodes) -> set[str]:
                 out.add(n.name)
             elif isinstance(n, ast.NamedExpr):
                 tgt(n.target)
+            elif isinstance(n, ast.Delete):
+                for t in n.targets:
+                    tgt(t)
             elif isinstance(n, ast.Call) and isinstance(n.func, ast.Attribute) and n.func.attr in MUTATORS and isinstance(n.func.value, ast.Name):
                 out.add(n.func.value.id)
     return out
@@ -265,6 +275,29 @@ class StmtMixin(CallMixin):
     def loop_ordinal(self, node) -> int:
         return self.loop_index[id(node)]
 
+    def loop_contract(self, node, ordinal: int) -> dict:
+        """Loop contracts are keyed by ordinal (source order) or - robust against loops being added/removed elsewhere in the function -
+        by what the loop iterates: 'for <iter text>' / 'while <test text>', with '#k' appended when the text occurs more than once."""
+        loops = self.C.loops
+        if any(isinstance(k, str) for k in loops):
+            names = getattr(self, '_loop_names', None)
+            if names is None or names[0] is not self.fn_node:
+                texts = {}
+                for n in ast.walk(self.fn_node):
+                    if id(n) in self.loop_index:
+                        texts[id(n)] = ('while ' + ast.unparse(n.test)) if isinstance(n, ast.While) else ('for ' + ast.unparse(n.iter))
+                by_text = {}
+                for i, t in sorted(texts.items(), key=lambda kv: self.loop_index[kv[0]]):
+                    by_text.setdefault(t, []).append(i)
+                nm = {}
+                for t, ids in by_text.items():
+                    for k, i in enumerate(ids):
+                        nm[i] = t if len(ids) == 1 else '%s#%d' % (t, k)
+                names = (self.fn_node, nm)
+                self._loop_names = names
+            return loops.get(names[1].get(id(node)), {})
+        return loops.get(ordinal, {})
+
     def writes_of(self, nodes) -> tuple[set[str], set[str], bool]:
         fields: set[str] = set()
         ghosts: set[str] = set()
@@ -384,7 +417,7 @@ class StmtMixin(CallMixin):
         if s.orelse:
             raise Unsupported('for-else')
         ordinal = self.loop_ordinal(s)
-        L = self.C.loops.get(ordinal, {})
+        L = self.loop_contract(s, ordinal)
         src = self.as_list(self.refresh(self.eval(s.iter)))
         src = V(src.ty, src.term)   # snapshot
         n = self.list_len(src)
@@ -448,7 +481,7 @@ class StmtMixin(CallMixin):
         if s.orelse:
             raise Unsupported('while-else')
         ordinal = self.loop_ordinal(s)
-        L = self.C.loops.get(ordinal, {})
+        L = self.loop_contract(s, ordinal)
         if not hasattr(self, 'loop_old_stack'):
             self.loop_old_stack = []
         self.loop_old_stack.append(self.st.snapshot())
